@@ -3,6 +3,7 @@ package props
 import (
 	"bytes"
 	"crypto/sha256"
+	"errors"
 	"fmt"
 	"io"
 	"strconv"
@@ -438,6 +439,28 @@ func (c16) RunCase(c *fw.Ctx, rng *fw.RNG, batch, i int) {
 		fnRepl, ferr := basicBuild(op.val)
 		if op.kind == "replace" && ferr != nil {
 			return
+		}
+		// one transform in sixteen: the callback itself fails. The transform must then fail with that error (not
+		// build a tree around a missing node), leave the input as it was and write nothing under the root
+		if !wantErr && rng.Chance(1, 16) {
+			errCB := errors.New("callback says no")
+			var o2 datamodel.Node
+			var e2 error
+			w0 := len(writes)
+			if !c.Guard("C16:FocusedTransform:callback-error", func() {
+				o2, e2 = traversal.Progress{Cfg: cfg}.FocusedTransform(rootNode, datamodel.NewPath(psegs), func(traversal.Progress, datamodel.Node) (datamodel.Node, error) {
+					return nil, errCB
+				}, createParents)
+			}) {
+				c.Count("callback_error_transforms", 1)
+				if e2 == nil || !strings.Contains(e2.Error(), errCB.Error()) {
+					c.Deviate("C16:callback-error-lost", fmt.Sprintf("the transform callback returned an error at <%s>; FocusedTransform returned node nil=%v, err=%v", strings.Join(segs, "/"), o2 == nil, e2))
+				}
+				if after := obs.ReadOut(rootNode, obs.Options{Light: true}).Val; !model.Equal(after, before) {
+					c.Deviate("C16:input-mutated", "the input tree changed during a transform whose callback failed")
+				}
+			}
+			writes = writes[:w0]
 		}
 		if c.Guard("C16:FocusedTransform", func() {
 			out, terr = traversal.Progress{Cfg: cfg}.FocusedTransform(rootNode, datamodel.NewPath(psegs), func(_ traversal.Progress, n datamodel.Node) (datamodel.Node, error) {
